@@ -127,7 +127,11 @@ impl Sim {
         // windows are read inside one frame
         e.cost_estimate().budget().reset_unlimited();
         let u = Universe::new(&e, N + 1);
-        let uri = SString::from_str(&e, "https://x.example/");
+        // every other collection is deployed with an EMPTY base URI (only the existence of token_uri(id)
+        // is observed, never its text): the getter must refuse unknown ids whatever the metadata
+        static SIMS: std::sync::atomic::AtomicU32 = std::sync::atomic::AtomicU32::new(0);
+        let k = SIMS.fetch_add(1, std::sync::atomic::Ordering::Relaxed);
+        let uri = SString::from_str(&e, if k % 2 == 1 { "" } else { "https://x.example/" });
         let name = SString::from_str(&e, "N");
         let sym = SString::from_str(&e, "S");
         let admin = u.a(ADMIN).clone();
